@@ -84,9 +84,12 @@ func (r *recOut) NameField(name string) {
 		r.stack[len(r.stack)-1] = 2
 	}
 }
-func (r *recOut) Int64(v int64)     { r.evs = append(r.evs, ev{K: evInt, U: uint64(v)}); r.valueDone() }
-func (r *recOut) Uint64(v uint64)   { r.evs = append(r.evs, ev{K: evUint, U: v}); r.valueDone() }
-func (r *recOut) Float64(v float64) { r.evs = append(r.evs, ev{K: evF64, U: math.Float64bits(v)}); r.valueDone() }
+func (r *recOut) Int64(v int64)   { r.evs = append(r.evs, ev{K: evInt, U: uint64(v)}); r.valueDone() }
+func (r *recOut) Uint64(v uint64) { r.evs = append(r.evs, ev{K: evUint, U: v}); r.valueDone() }
+func (r *recOut) Float64(v float64) {
+	r.evs = append(r.evs, ev{K: evF64, U: math.Float64bits(v)})
+	r.valueDone()
+}
 func (r *recOut) Float32(v float32) {
 	r.evs = append(r.evs, ev{K: evF32, U: uint64(math.Float32bits(v))})
 	r.valueDone()
